@@ -32,6 +32,7 @@ func (e *Engine) RunRoot(fn *ssa.Function) (err error) {
 			panic(r)
 		}
 	}()
+	e.resetSymbolic()
 	e.rootKey = shortKey(funcKey(fn))
 	e.rootInputs = nil
 	e.registerReplayTarget(fn, e.modDir)
@@ -119,7 +120,7 @@ func (e *Engine) RunRoot(fn *ssa.Function) (err error) {
 
 func (s *State) addCover(kind, name string, pos token.Pos, desc string) {
 	o := &Obligation{Name: name, Kind: kind, Root: s.eng.rootKey, Pos: posString(s.eng.fset, pos),
-		Assumes: s.assumes.slice(), Goal: TFalse, Desc: desc, PathID: s.id, ExpectSat: true}
+		Assumes: s.assumes.slice(), Goal: TFalse, Desc: desc, PathID: s.id, ExpectSat: true, U: s.eng.u}
 	s.eng.obligations = append(s.eng.obligations, o)
 }
 
@@ -1103,6 +1104,16 @@ func (e *Engine) stringToBytes(s *State, str Term, elem types.Type) Term {
 	key, sort := e.memKey(elem)
 	base := e.newRef()
 	inner := arrayElemSort(sort)
+	if lit, ok := smtString(str.S); ok && strings.HasPrefix(str.S, "\"") && len(lit) <= 64 && elemKeyName(elem) == "uint8" {
+		// literal string: concrete bytes, literal length
+		arr := Term{fmt.Sprintf("((as const %s) 0)", inner), inner}
+		for i := 0; i < len(lit); i++ {
+			arr = Store(arr, IntLit(int64(i)), IntLit(int64(lit[i])))
+		}
+		s.heapSet(key, Store(s.heapGet(key, sort), base, e.u.Define("s2barr", arr)))
+		n := IntLit(int64(len(lit)))
+		return e.u.Define("bytes", App("mk-slice", SSlice, base, IntLit(0), n, n))
+	}
 	arr := e.u.Fresh("s2b", inner)
 	n := App("str.len", SInt, str)
 	if elemKeyName(elem) == "uint8" {
